@@ -44,7 +44,7 @@ func (zzTimeout) Temporary() bool { return true }
 // 0..2 complete commands and possibly part of one, then the connection ends in an orderly
 // close (EOF), an idle timeout or a reset. Serve must return and close the connection.
 func zzH_C09_ftpserve() {
-	lines := []string{"NOOP\r\n", "USER x\r\n", "SYST\r\n"}
+	lines := []string{"NOOP\r\n", "USER x\r\n", "SYST\r\n", "QUIT\r\n"}
 	var data []byte
 	k := zzLen(0, 2)
 	for i := 0; i < k; i++ {
@@ -66,8 +66,23 @@ func zzH_C09_ftpserve() {
 	srv := NewServer(&ServerOpts{Auth: &User{users: map[string]string{}}})
 	conn := &Conn{namePrefix: "/", conn: nc, controlReader: bufio.NewReader(nc), controlWriter: bufio.NewWriter(nc),
 		driver: &zzDriver{}, auth: srv.Auth, server: srv, sessionid: "zz", rcv: make(chan string, 64)}
+	// a data connection opened earlier in the session (PORT/PASV) and not consumed by a transfer
+	var ds *zzDSock
+	if zzLen(0, 1) == 1 {
+		ds = &zzDSock{}
+		conn.dataConn = ds
+	}
 	zzUnwind(k+4, true)
 	conn.Serve()
 	zzUnwind(0, false)
 	zzAssert(nc.closed, "the control connection is closed when the peer is gone")
+	zzAssert(ds == nil || ds.closed, "a pending data connection of the session is closed when the handler returns")
 }
+
+type zzDSock struct{ closed bool }
+
+func (d *zzDSock) Host() string                { return "10.9.9.9" }
+func (d *zzDSock) Port() int                   { return 40001 }
+func (d *zzDSock) Read(p []byte) (int, error)  { return 0, io.EOF }
+func (d *zzDSock) Write(p []byte) (int, error) { return len(p), nil }
+func (d *zzDSock) Close() error                { d.closed = true; return nil }
